@@ -22,7 +22,7 @@ RULE = ("netlists: 1-3 modules from 21 shapes (soft/hard/fixed x {single rectang
         "soft modules grown 10%; each branch slid 0.2 along its side; and from each legal configuration every perturbation of the menu {cross each die border by 0.5, "
         "stretch a soft rectangle beyond the ratio limit, shrink a soft module's area by 36%, detach a branch by 0.25, slide a branch 0.5 past the trunk end, swap two "
         "siblings, overlap two siblings by 0.3, overlap two modules by >=0.5, push a module 0.4 deep onto each single branch of another module, change a hard rectangle's width by 0.25, change a hard branch offset by 0.25, move a fixed "
-        "module by 0.5}. Non-trivial = configurations other than the unmodified input; distinct by construction.")
+        "module by 0.5}; the input configuration of every 1-module netlist and of pairs with softN / hard1 written in other units (all lengths x 100000.3). Non-trivial = configurations other than the unmodified input; distinct by construction.")
 ASSUMPTIONS = ["annealing slack set to ~0 via model.time (0.3*0.9^1000); the step-cap ('radius'), time ('Exact Value') and switched-off-rectangle ('Rid') groups are bookkeeping of the "
                "annealing loop, not legality, and are excluded",
                "clauses are judged with margins: satisfied with slack or tight by construction, violated by >= 0.1; configurations with a clause in between are skipped as ambiguous "
@@ -386,6 +386,9 @@ def check_case(case, res):
     if case.get('elongated'):
         check_elongated(case, res)
         return
+    if case.get('scaled'):
+        check_scaled_input(case, res)
+        return
     reset_frame_state()
     attrs = dict(shapes=[s for s, _ in case['mods']], ratio=case['ratio'])
     try:
@@ -462,6 +465,59 @@ def check_elongated(case, res):
         res.case('legal' if legal else 'illegal:no-overlap', nontrivial=True)
 
 
+def check_scaled_input(case, res):
+    """the same netlists written in other units (all lengths x s, s = 100000.3): 'the input configuration of an already
+    legal floorplan satisfies the system' - only the input is judged (it is legal by construction)"""
+    import tools.legalfloor.legalfloor as lf
+    from frame.netlist.netlist import Netlist
+    reset_frame_state()
+    s = case['scaled']
+    die = [case['die'][0] * s, case['die'][1] * s]
+    slots = slots_of(case['die'])
+    attrs = dict(shapes=[m for m, _ in case['mods']], ratio=case['ratio'], scaled=s, config='input')
+    mods, layout = {}, []
+    for i, (shape, si) in enumerate(case['mods']):
+        kind, rects = place(shape, slots[si])
+        rects = [dict(role=r['role'], x=float(r['x']) * s, y=float(r['y']) * s, w=float(r['w']) * s, h=float(r['h']) * s) for r in rects]
+        node = {'rectangles': [[r['x'], r['y'], r['w'], r['h']] for r in rects]}
+        if kind == 'soft':
+            node['area'] = sum(r['w'] * r['h'] for r in rects)
+        elif kind == 'hard':
+            node['hard'] = True
+        else:
+            node['fixed'] = True
+        mods[f'M{i}'] = node
+        layout.append(dict(kind=kind, rects=rects))
+    names = list(mods)
+    try:
+        n = Netlist({'Modules': mods, 'Nets': [names] if len(names) >= 2 else []})
+        with quiet():
+            ml, al, xl, yl, wl, hl, hyper, og = lf.netlist_to_utils(n)
+            model = lf.Model(ml, al, xl, yl, wl, hl, float(die[0]), float(die[1]), hyper, float(case['ratio']), og, 0.9, 0.3, 1.0, None)
+            model.time.assign(1000)
+    except Exception as e:  # noqa
+        res.violation('model-raises', case, attrs, 'a model', f'{type(e).__name__}: {e}')
+        res.case('raised')
+        return
+    index = []
+    for mi, mm in enumerate(model.M):
+        idx = []
+        for j in range(len(mm.x)):
+            key = (mm.x[j].evaluate(), mm.y[j].evaluate(), mm.w[j].evaluate(), mm.h[j].evaluate())
+            hit = [k for k, r in enumerate(layout[mi]['rects']) if all(abs(r[c] - key[q]) < 1e-9 * s for q, c in enumerate('xywh'))]
+            idx.append(hit[0] if hit else None)
+        index.append(idx)
+    if any(k is None for idx in index for k in idx):
+        res.violation('model-rectangles', case, attrs, 'the model starts from the input rectangles', 'some rectangle was altered')
+        res.case('altered')
+        return
+    unmet = evaluate_system(model, layout, index)
+    if unmet:
+        res.violation('rejects-legal', case, dict(attrs, groups=sorted({g for g, _ in unmet})), 'legal=True (the input floorplan)',
+                      f'unmet equations: {unmet[:4]}')
+    res.case('legal', nontrivial=True)
+
+
 def netlists(tier):
     out = []
     all_shapes = list(SHAPES)
@@ -487,6 +543,8 @@ def shards(tier):
     for lo in range(0, len(nl), step):
         out.append(dict(lo=lo, hi=min(len(nl), lo + step)))
     out.append(dict(elongated=True))
+    for lo in range(0, len(SHAPES), 3):
+        out.append(dict(scaled=True, lo=lo, hi=lo + 3))
     return out
 
 
@@ -494,6 +552,15 @@ def run_shard(shard, tier, res):
     if shard.get('elongated'):
         for die in ([100, 10], [10, 100], [40, 12]):
             check_case(dict(elongated=True, die=die), res)
+        return
+    if shard.get('scaled'):
+        shp = list(SHAPES)[shard['lo']:shard['hi']]
+        for sh in shp:
+            wide = sh.endswith('_int')
+            check_case(dict(scaled=100000.3, mods=[[sh, 0]], die=[10, 8] if wide else [8, 8], ratio=2.0), res)
+            check_case(dict(scaled=100000.3, mods=[[sh, 3]], die=[10, 8] if wide else [8, 8], ratio=2.0), res)
+            for other in ('softN', 'hard1'):
+                check_case(dict(scaled=100000.3, mods=[[sh, 0], [other, 1]], die=[10, 8] if wide else [8, 8], ratio=2.0), res)
         return
     nl = netlists(tier)[shard['lo']:shard['hi']]
     for mods in nl:
